@@ -753,6 +753,7 @@ def rule_T3(ctx, rid='T3'):
                    'the setter does not store the requested value (on every path, before the '
                    'recomputation): switching the view has no effect or the statistics are '
                    'recomputed for the old value')
+    _rule_T3_domain(ctx, S, rid)
     # update_shell_info is a pure recomputation: reads of its outputs follow its own writes
     f = prog.func('Sampler.update_shell_info')
     cfg = cfg_of(f)
@@ -788,6 +789,101 @@ def rule_T3(ctx, rid='T3'):
                'history, not only on the stored samples' % (
                    out_attr, [cfg.nodes[b].lineno for b in bad]))
     return n
+
+
+def _rule_T3_domain(ctx, S, rid):
+    """Getter / setter domain agreement: a setter that rejects everything but `T` instances
+    must accept whatever its own getter returns, or `x.flag = x.flag` (save / toggle / restore)
+    raises.  So every store into the backing field outside the setter has to be a `T`:
+    a literal, a `T(..)` conversion, a comparison (for bool) - not a value read from a file,
+    which is a numpy scalar."""
+    for name, f in sorted(S.methods.items()):
+        if f.kind != 'setter':
+            continue
+        val = [p_ for p_ in f.params if p_ != f.self_name]
+        if not val:
+            continue
+        cfg = cfg_of(f)
+        tname = None
+        for t in cfg.nodes:
+            if t.kind != 'test' or t.expr is None:
+                continue
+            e = t.expr
+            neg = isinstance(e, ast.UnaryOp) and isinstance(e.op, ast.Not)
+            c = e.operand if neg else e
+            if isinstance(c, ast.Call) and dotted(c.func) == 'isinstance' and len(c.args) == 2 \
+                    and isinstance(c.args[0], ast.Name) and c.args[0].id == val[0] and \
+                    isinstance(c.args[1], ast.Name):
+                rej = [s_ for s_, lab in t.succ if lab == (True if neg else False)]
+                if any(isinstance(cfg.nodes[r_].ast, ast.Raise) for s_ in rej
+                       for r_ in ({s_} | set(cfg.reach(s_))) if cfg.nodes[r_].kind == 'stmt'
+                       and not cfg.can_reach(r_, cfg.exit.id)
+                       or isinstance(cfg.nodes[r_].ast, ast.Raise)):
+                    tname = c.args[1].id
+        if tname is None:
+            continue
+        backing = {nn.ast.targets[0].attr for nn in cfg.nodes if nn.kind == 'stmt' and
+                   isinstance(nn.ast, ast.Assign) and len(nn.ast.targets) == 1 and
+                   isinstance(nn.ast.targets[0], ast.Attribute) and
+                   isinstance(nn.ast.value, ast.Name) and nn.ast.value.id == val[0]}
+        ctx.require(len(backing) == 1, 'T3: backing field of setter %s not found' % f.qualname)
+        field = backing.pop()
+
+        def kind(v):
+            if isinstance(v, ast.Constant):
+                return 'ok' if type(v.value).__name__ == tname else 'bad'
+            if isinstance(v, ast.Call) and dotted(v.func) == tname:
+                return 'ok'
+            if tname == 'bool' and (isinstance(v, (ast.Compare, ast.BoolOp)) or
+                                    isinstance(v, ast.UnaryOp) and isinstance(v.op, ast.Not)):
+                return 'ok'
+            if isinstance(v, ast.Subscript):
+                return 'bad'       # a value taken from a file / container: numpy scalar
+            if isinstance(v, ast.Call) and (dotted(v.func) or '').startswith('np.'):
+                return 'bad'
+            return None
+        n = 0
+        for gname, g in sorted(S.methods.items()):
+            if g is f:
+                continue
+            gcfg = cfg_of(g)
+            stores = []
+            for st in walk_no_nested(g.node):
+                if isinstance(st, ast.Assign) and len(st.targets) == 1 and \
+                        isinstance(st.targets[0], ast.Attribute) and \
+                        isinstance(st.targets[0].value, ast.Name) and \
+                        st.targets[0].value.id == g.self_name and st.targets[0].attr == field \
+                        and gcfg.has(st):
+                    stores.append((st, st.value))
+                if isinstance(st, ast.For) and isinstance(st.iter, (ast.List, ast.Tuple)) and \
+                        isinstance(st.target, ast.Name) and \
+                        any(isinstance(e_, ast.Constant) and e_.value == field
+                            for e_ in st.iter.elts):
+                    for c in ast.walk(st):
+                        if isinstance(c, ast.Call) and dotted(c.func) == 'setattr' and \
+                                len(c.args) == 3 and isinstance(c.args[1], ast.Name) and \
+                                c.args[1].id == st.target.id and gcfg.has(c):
+                            stores.append((c, c.args[2]))
+            for st, v in stores:
+                k = kind(v)
+                ctx.require(k is not None, 'T3 not decided: type of `%s` stored into %s.%s'
+                            % (unparse(v)[:40], S.name, field))
+                nid = gcfg.node_of(st).id
+                if k == 'bad':
+                    # a later normalising store on every path repairs it
+                    later = {gcfg.node_of(s2).id for s2, v2 in stores if kind(v2) == 'ok'
+                             and gcfg.node_of(s2).id != nid}
+                    later = {l_ for l_ in later if gcfg.can_reach(nid, l_)}
+                    k = 'ok' if later and gcfg.must_pass(nid, gcfg.exit.id, later) else 'bad'
+                n += 1
+                ctx.ob(rid, '%s:%s-is-a-%s' % (g.qualname, field, tname), k == 'ok', g.where(st),
+                       'the value stored into the field is a %s, which its setter accepts'
+                       % tname if k == 'ok' else
+                       '`%s` is stored into %s, whose getter then returns a value its own '
+                       'setter rejects (`isinstance(.., %s)` is False for a numpy scalar): '
+                       'restoring a saved flag with `s.%s = saved` raises' % (
+                           unparse(v)[:40], field, tname, name.split('.')[0]))
+        ctx.require(n >= 1, 'T3: no store into %s outside its setter' % field)
 
 
 def _is_push_or_delete(value, target):
